@@ -311,4 +311,15 @@ def explore(run, tier):
             aa = rng.choice(['latin_1', 'cp500'])
             cases.append({'kind': 'param', 'tool': 'paramconv', 'a': aa, 'b': 'cp500' if aa == 'latin_1' else 'latin_1',
                           'inb': blk, 'outb': blk, 'recs': recs})
+    # files with NO record at all (what a writer closed straight away produces: the terminator only, blocked or not): they
+    # convert to files with no record, through every tool
+    for a, b in (('latin_1', 'cp500'), ('cp500', 'cp037'), ('cp037', 'latin_1'), ('latin_1', 'latin_1')):
+        for inb, outb in ((0, 0), (1, 1), (0, 1), (1, 0)):
+            cases.append({'kind': 'ipm', 'tool': 'encode', 'a': a, 'b': b, 'inb': inb, 'outb': outb, 'msgs': []})
+            cases.append({'kind': 'param', 'tool': 'param', 'a': a, 'b': b, 'inb': inb, 'outb': outb, 'recs': []})
+        if (a, b) in (('latin_1', 'cp500'),):
+            for blk in (0, 1):
+                cases.append({'kind': 'ipm', 'tool': 'mideu', 'a': a, 'b': b, 'inb': blk, 'outb': blk, 'msgs': []})
+                cases.append({'kind': 'param', 'tool': 'paramconv', 'a': a, 'b': b, 'inb': blk, 'outb': blk, 'recs': []})
+            cases.append({'kind': 'ipm', 'tool': 'encode-argv', 'a': a, 'b': b, 'inb': 1, 'outb': 1, 'switch': False, 'msgs': []})
     run.correspond(__name__, cases, use_model=run.use_model, chunk=12)
